@@ -3114,7 +3114,7 @@ psf_open_file (SF_PRIVATE *psf, SF_INFO *sfinfo)
 	if (psf->fileoffset > 0)
 	{	switch (psf->file.mode)
 		{	case SFM_READ :
-				if (psf->filelength < 44)
+				if (psf->fileoffset >= psf->filelength)
 				{	psf_log_printf (psf, "Short filelength: %D (fileoffset: %D)\n", psf->filelength, psf->fileoffset) ;
 					error = SFE_BAD_OFFSET ;
 					goto error_exit ;
